@@ -361,7 +361,16 @@ func newCmap6(cm tables.CmapSubtable6) cmap6or10 {
 }
 
 func newCmap10(cm tables.CmapSubtable10) cmap6or10 {
-	return cmap6or10{entries: cm.GlyphIdArray, firstCode: rune(cm.StartCharCode)}
+	// the start code is a 32 bits value: restrict the subtable to valid runes
+	const maxRune = 0x10FFFF
+	if cm.StartCharCode > maxRune {
+		return cmap6or10{}
+	}
+	entries := cm.GlyphIdArray
+	if max := maxRune + 1 - int(cm.StartCharCode); len(entries) > max {
+		entries = entries[:max]
+	}
+	return cmap6or10{entries: entries, firstCode: rune(cm.StartCharCode)}
 }
 
 type cmap6Or10Iter struct {
